@@ -91,6 +91,27 @@ end
 def Slice.openPrefixOk (S : Schema) (sl : Slice) : Bool :=
   S.fillableKids sl.content && S.endChainOk sl.content
 
+/-! ### slices that satisfy the static guard whatever was cut off: "homogeneous" content -/
+
+/-- the content automaton of type `w` accepts from its start state whatever is cut off in front of a matchable
+    sequence: every edge of every state is also an edge of the start state, with the same target (`x*`, `x+`,
+    `(x | y)*`, `title? block*`; not `paragraph block*`, `a b`, `heading body`) -/
+def Schema.suffixClosedB (S : Schema) (w : TypeId) : Bool :=
+  (List.range (S.dfa w).size).all (fun q => ((S.dfa w).edgesOf q).all (fun e => (S.dfa w).matchType 0 e.1 == some e.2))
+
+mutual
+/-- every non-leaf node of the tree has a type whose content is suffix-closed -/
+def Schema.homogNode (S : Schema) : Node → Bool
+  | .elem t _ _ kids => S.suffixClosedB t && S.homogKids kids
+  | _ => true
+def Schema.homogKids (S : Schema) : List Node → Bool
+  | [] => true
+  | n :: ns => S.homogNode n && S.homogKids ns
+end
+
+/-- every node type of the schema has suffix-closed content (the bundled `basic` schema, for instance) -/
+def Schema.homogSchemaB (S : Schema) : Bool := (List.range S.nodes.size).all S.suffixClosedB
+
 /-! ### the unplaced slice stays well-formed: as a run hypothesis, and a static guard that implies it -/
 
 /-- the unplaced slice is `Slice.wf` in this state and after every iteration **for as long as the loop runs**: an
